@@ -235,6 +235,9 @@ func unmarshalFloat(data []byte, bitSize int) (protoreflect.Value, error) {
 }
 
 func quote(raw []byte) []byte {
+	if len(raw) == 0 {
+		return []byte(`""`) // the empty string is a value too (empty StringValue, FieldMask, ...)
+	}
 	if len(raw) > 0 && (raw[0] != '"' || raw[len(raw)-1] != '"') {
 		raw = strconv.AppendQuote(raw[:0], string(raw))
 	}
